@@ -10,7 +10,11 @@ package probing
 //@   ensures success <==> (forall i int :: 0 <= i && i < len(p) ==> probeOK(p[i], objstate(obj)))
 //@   ensures success ==> len(messages) == 0
 //@   ensures !success ==> len(messages) >= 1
+// all failing probes are reported: every failing probe contributes its messages (at least one each)
+//@   after Prober.Probe ghost failedProbes() := failedProbes() + (if result0 then 0 else 1)
+//@   ensures [C17] len(messages) >= failedProbes() - old(failedProbes())
 //@   loop 1 invariant 0 <= idx && idx <= len(p)
+//@   loop 1 invariant [C17] len(allMsgs) >= failedProbes() - old(failedProbes())
 //@   loop 1 invariant (len(allMsgs) == 0) <==> (forall i int :: 0 <= i && i < idx ==> probeOK(p[i], objstate(obj)))
 //@   loop 1 invariant sarr(allMsgs) == 0 || fresh(sarr(allMsgs))
 //@   loop 1 invariant oldmem_unchanged()
